@@ -156,6 +156,11 @@ def gen_rect(rng, big=False):
         'angle': angle, 'shift': shift, 'perm': perm, 'tilt': tilt,
         'atmvol': rng.choice([1.e25, 1.e30, 0.0, 50.0]), 'atmconn': rng.choice([1.e-6, 0.5, 1.0]),
         'map': gen_map(rng),
+        # outside the property's quantifier (oracle skipped, correspondence only): a name alphabet with digits, on which
+        # fix_blockname fires and block names no longer parse back; a stale block_name_list cache (surfaces changed
+        # after the last setup_block_name_index)
+        'chars': rng.choice([None] * 14 + ['ab12', 'xyz0123456789']),
+        'stale': (gen_surfaces(rng, nx * ny, nz) if rng.random() < 0.07 else None),
     }
 
 
@@ -250,9 +255,10 @@ def build(rec):
     import mulgrids, numpy as np, random
     with quiet():
         if rec['gen'] == 'rect':
+            kw = {'chars': rec['chars']} if rec.get('chars') else {}
             geo = mulgrids.mulgrid().rectangular(rec['dx'], rec['dy'], rec['dz'], convention=rec['conv'], atmos_type=rec['atm'],
                                                  origin=list(rec['origin']), justify=rec['justify'], case=rec['case'],
-                                                 block_order=rec['order'])
+                                                 block_order=rec['order'], **kw)
             geo.atmosphere_volume = rec['atmvol']
             geo.atmosphere_connection = rec['atmconn']
             apply_surfaces(geo, rec['surf'])
@@ -287,6 +293,10 @@ def build(rec):
         # caches as every library operation leaves them
         geo.setup_block_name_index()
         geo.setup_block_connection_name_index()
+        if rec.get('stale'):
+            for col, spec in zip(geo.columnlist, rec['stale']):
+                if spec is not None:
+                    col.surface = surface_value(geo, spec)       # ... and no refresh of the name caches
     blockmap, injective = {}, True
     if rec['map']:
         r = random.Random(rec['map']['seed'])
@@ -422,13 +432,15 @@ def direction_margin(geo, c0, c1):
     return abs(u - v) <= RTOL * max(u, v, 1e-300)
 
 
-def compare(geo, blockmap, real, rep, res):
+def compare(geo, blockmap, real, rep, res, stale=False):
     """correspondence: list of differences (strings); empty = agree"""
     diffs = []
     # the cached name lists vs the model's recomputation
-    if rep.names != ('ok', list(geo.block_name_list)):
+    if stale:
+        pass        # the model recomputes the lists; the real caches are deliberately out of date
+    elif rep.names != ('ok', list(geo.block_name_list)):
         diffs.append('block_name_list: model %s vs real %s' % (str(rep.names)[:120], str(geo.block_name_list)[:120]))
-    if rep.cnames != ('ok', [tuple(c) for c in geo.block_connection_name_list]):
+    if not stale and rep.cnames != ('ok', [tuple(c) for c in geo.block_connection_name_list]):
         diffs.append('block_connection_name_list: model %s vs real %s' % (str(rep.cnames)[:120], str(geo.block_connection_name_list)[:120]))
     tv = [float(x) for x in geo.tilt_vector]
     if rep.tilt_exact and not all(close(a, b, RTOL, 1e-15) for a, b in zip(tv, rep.tilt)):
@@ -508,7 +520,7 @@ def oracle(geo, blockmap, real, injective, rec):
     def bad(key, what):
         out.append(dict(key=key, what=what, case=rec))
         return out
-    if not geo_valid(geo) or not injective:
+    if not geo_valid(geo) or not injective or rec.get('chars') or rec.get('stale'):
         return out
     if real[0] == 'exc':
         return bad('fromgeo-raises:' + real[1], 'fromgeo raises %s on a valid geometry' % real[1])
@@ -632,6 +644,47 @@ def oracle(geo, blockmap, real, injective, rec):
     return out
 
 
+# ------------------------------------------------------------------ measured reach (thorough tier)
+
+EVIDENCE_EXTRA = {}
+
+
+def anchored_functions():
+    import t2grids, mulgrids, geometry
+    G, M = t2grids.t2grid, mulgrids.mulgrid
+    return [G.fromgeo, G.add_blocks, G.add_atmosphereblocks, G.add_underground_blocks, G.add_connections,
+            G.add_vertical_layer_connections, G.add_horizontal_layer_connections, G.add_block, G.add_connection,
+            M.block_surface, M.block_volume, M.block_centre, M.connection_params, M.get_tilt_vector, M.block_name,
+            M.setup_block_name_index, M.block_name_list_layer_column, M.block_name_list_dmplex,
+            M.setup_block_connection_name_index, M.column_name, M.layer_name, mulgrids.fix_blockname,
+            geometry.polygon_area, geometry.line_projection]
+
+
+def measure_reach(thunk, functions):
+    """run thunk() under `coverage` and report, for the anchored functions, which body lines it executed"""
+    import coverage, inspect
+    files = sorted(set(inspect.getsourcefile(f) for f in functions))
+    cov = coverage.Coverage(data_file=None, include=files)
+    cov.start()
+    try:
+        thunk()
+    finally:
+        cov.stop()
+    per, tot, hit, missing_all = {}, 0, 0, []
+    for f in functions:
+        src, start = inspect.getsourcelines(f)
+        fn = inspect.getsourcefile(f)
+        _, executable, _, missing, _ = cov.analysis2(fn)
+        body = range(start + 1, start + len(src))
+        ex = [l for l in executable if l in body]
+        ms = [l for l in missing if l in body]
+        per[f.__qualname__] = '%d/%d' % (len(ex) - len(ms), len(ex)) + (' missing lines %s' % ms if ms else '')
+        tot += len(ex); hit += len(ex) - len(ms)
+        missing_all += ['%s:%d' % (fn.split('/')[-1], l) for l in ms]
+    return {'lines_executed': hit, 'lines_total': tot, 'fraction': round(hit / max(tot, 1), 4), 'per_function': per,
+            'unexecuted_lines': missing_all}
+
+
 # ------------------------------------------------------------------ run
 
 def nontrivial(geo, blockmap):
@@ -648,6 +701,13 @@ def gen_cases(ctx, rng, scale=1.0):
     for i in range(n_ship):
         cases.append(gen_shipped(rng))
     cases.append(gen_shipped(rng, whole='g7.dat'))
+    # the shipped geometries as they are: property oracle on the whole grid (up to 29 000 blocks / 80 000 connections);
+    # the Lean model's quadratic add_block/add_connection makes whole files slow, so only g5 goes through it (thorough)
+    for name in (['g1.dat', 'g3.dat', 'g5.dat', 'g6.dat'] if ctx.quick else SHIPPED[:6]):
+        rec = gen_shipped(rng, whole=name)
+        rec.update({'atm': None, 'order': None, 'surf': None, 'angle': 0, 'shift': None, 'perm': None, 'tilt': None, 'map': None,
+                    'nomodel': not (name == 'g5.dat' and not ctx.quick)})
+        cases.append(rec)
     return cases
 
 
@@ -668,7 +728,7 @@ def run(ctx, scale=1.0, oracle_only=False):
     rng = ctx.rng('fromgeo')
     cases = gen_cases(ctx, rng, scale)
     facet = res.facet('fromgeo')
-    built, lines = [], []
+    built, lines, modelled = [], [], []
     for rec in cases:
         geo, blockmap, injective = build(rec)
         real = run_real(geo, blockmap)
@@ -681,6 +741,8 @@ def run(ctx, scale=1.0, oracle_only=False):
         res.count('blockmap:' + ('none' if not blockmap else 'injective' if injective else 'colliding'))
         res.count('rotation:%s' % rec['angle'])
         res.count('tilt:' + ('untilted' if untilted(geo) else 'tilted'))
+        res.count('in-quantifier:' + ('no (digit name alphabet)' if rec.get('chars') else 'no (stale name cache)' if rec.get('stale') else
+                                      'no (colliding block map)' if not injective else 'yes'))
         res.count('outcome:' + (real[0] if real[0] == 'ok' else real[1]))
         ll = geo.layerlist
         for c in geo.columnlist:
@@ -692,17 +754,21 @@ def run(ctx, scale=1.0, oracle_only=False):
             res.count('blocks', len(real[1].blocklist))
             res.count('connections', len(real[1].connectionlist))
         res.violations += oracle(geo, blockmap, real, injective, rec)
-        if not oracle_only and ctx.model_ok:
+        if not oracle_only and ctx.model_ok and not rec.get('nomodel'):
             lines.append(encode(geo, blockmap))
+            modelled.append(built[-1])
+        elif rec.get('nomodel'):
+            res.count('oracle-only whole file')
+            built[-1] = (rec, None, None, injective, None)      # free the big grid
     if not oracle_only and ctx.model_ok:
         replies = core.run_driver('drv_c04', lines)
-        for (rec, geo, blockmap, injective, real), line, rep in zip(built, lines, replies):
+        for (rec, geo, blockmap, injective, real), line, rep in zip(modelled, lines, replies):
             facet['cases'] += 1
             r = decode(rep)
             if r.raw is not None:
                 raise RuntimeError('driver reply: ' + r.raw[:200])
             res.count('model-tilt:' + ('exact' if r.tilt_exact else 'irrational (real tilt vector used)'))
-            diffs = compare(geo, blockmap, real, r, res)
+            diffs = compare(geo, blockmap, real, r, res, stale=bool(rec.get('stale')))
             for name, ok in zip(HYPS, r.hyp):
                 h = res.hyp.setdefault(name, [0, 0])
                 h[0] += 1 if ok else 0
@@ -717,7 +783,15 @@ def run(ctx, scale=1.0, oracle_only=False):
                             'connections': len(real[1].connectionlist) if real[0] == 'ok' else None, 'agree': not diffs})
     else:
         for rec, geo, blockmap, injective, real in built[:6]:
-            res.sample({'case': describe(rec), 'blocks': len(real[1].blocklist) if real[0] == 'ok' else real[1]})
+            res.sample({'case': describe(rec)})
+    if not ctx.quick and not oracle_only:
+        sub = [c for c in cases if not c.get('whole')][:150]
+
+        def thunk():
+            for rec in sub:
+                geo, blockmap, injective = build(rec)
+                run_real(geo, blockmap)
+        EVIDENCE_EXTRA['measured_reach'] = measure_reach(thunk, anchored_functions())
     return res
 
 
